@@ -120,4 +120,13 @@ PROPS = {
         "assumptions": ["shift amounts >= 64 execute an undefined C++ shift: compared on a separate edge stream and not counted as violations", "construction from a big integer outside int64 raises CRAB_ERROR (documented limitation): skipped"],
         "trusted_base": COMMON_TB + ["model: CrabModel/Num/WrapInt.lean"],
     },
+    "C07": {
+        "level": "proof",
+        "lean_modules": ["CrabProofs.Props.C07", "CrabProofs.Props.C07Fix"],
+        "components": [{"harness": "h_wto", "quick": 24000, "thorough": 600000, "shards": 8,
+                        "nontrivial": lambda l: bool(__import__("re").search(r"=> \(w[^)]*\(", l))}],
+        "rule": "random directed graphs (1-16 nodes quick, up to 40 thorough; self loops, nested and irreducible cycles, unreachable parts, every node as entry, permuted successor orders) built as real crab CFGs; the implementation's ordering and nesting table are checked by the proved checker checkWto and compared with the model of the iterative Bourdoncle algorithm; non-trivial = the ordering has a cycle",
+        "assumptions": ["successor order = the order in which the cfg enumerates next_blocks (printed by the harness)", "call-graph instance of wto<> not driven"],
+        "trusted_base": COMMON_TB + ["model: CrabModel/Graph/Wto.lean, checker: CrabModel/Graph/WtoCheck.lean"],
+    },
 }
